@@ -5,7 +5,8 @@ import json
 from harness.gallina import glist, gstr, gz
 
 ID = "C07"
-COQ_TARGETS = ["Index.vo", "IndexProofs.vo", "Refuted.vo", "CorrC07.vo", "Props/C07.vo"]
+COQ_TARGETS = ["Index.vo", "IndexProofs.vo", "Refuted.vo", "CorrC07.vo", "TS.vo", "TSProofs.vo", "Schema.vo", "Bridge.vo",
+               "BridgeProofs.vo", "Props/C07.vo"]
 PROPS_FILE = "Props/C07.v"
 CORR_IMPORTS = "Base Index CorrC07"
 ENTRY = "cassis.cas.Cas.select_covered / select_covering / _get_feature_structures_in_range"
